@@ -4,7 +4,7 @@ from __future__ import annotations
 import ast
 from typing import List, Optional, Tuple
 
-from fjsa.flow import FuncFlow, call_args, lt_form, same, txt
+from fjsa.flow import FuncFlow, atxt, call_args, lt_form, same, txt
 from fjsa.model import FuncInfo
 from fjsa.report import Check
 from fjsa.rules import wmean
@@ -174,11 +174,11 @@ def run(check: Check):
           lo, hi = v.args[1].elts
           if isinstance(lo, ast.Constant) and lo.value == 0 and isinstance(hi, ast.BinOp) and isinstance(hi.op, ast.Sub) and isinstance(hi.left, ast.Name):
             d_name = hi.left.id
-            size_txt = txt(hi.right)
+            size_txts = {txt(z) for z in rff.expand(hi.right)} | {txt(hi.right)}
             flat = v.args[0]
             flat_ok = any(isinstance(y, ast.Call) and rff.ext(y.func) == 'jax.numpy.reshape' and rff.param_of(y.args[0]) == x for y in rff.expand(flat)) or any(
                 isinstance(y, ast.Call) and isinstance(y.func, ast.Attribute) and y.func.attr in ('flatten', 'ravel') for y in rff.expand(flat))
-            pad_ok = size_txt in (f'{x}.size', f'{txt(flat)}.size') and flat_ok
+            pad_ok = bool(size_txts & {f'{x}.size', f'{txt(flat)}.size'}) and flat_ok
     if d_name:
       for ds in rff.rd.defs_at.values():
         for d in ds:
@@ -186,7 +186,7 @@ def run(check: Check):
               d.value.left, ast.Constant) and d.value.left.value == 2:
             e = d.value.right
             pow2 = isinstance(e, ast.Call) and rff.ext(e.func) == 'math.ceil' and isinstance(e.args[0], ast.Call) and rff.ext(
-                e.args[0].func) == 'math.log2' and '.size' in txt(e.args[0].args[0])
+                e.args[0].func) == 'math.log2' and any('.size' in txt(z) for z in rff.expand(e.args[0].args[0]))
     len_ok = F['scale'] == 'sqrt' and d_name is not None and txt(F['length']) in (d_name, f'{w_name}.size', f'len({w_name})')
     f_ok = shape_ok and pad_ok and len_ok and pow2 and F['sign_pos'] in ('inside', 'outside')
     f_why = (f'signs have the shape of the padded vector and come from this leaf\'s key={shape_ok}; zero padding by d - size='
@@ -238,7 +238,12 @@ def run(check: Check):
         for y in iff.expand(rvx.args[0]):
           # w.take(arange(prod(shape)))  or  w[:prod(shape)]
           base = size = None
-          if isinstance(y, ast.Call) and isinstance(y.func, ast.Attribute) and y.func.attr == 'take' and y.args:
+          if isinstance(y, ast.Call) and iff.ext(y.func) in ('jax.numpy.take', 'numpy.take') and len(y.args) >= 2:
+            base = y.args[0]
+            ar = iff.expand1(y.args[1])
+            if isinstance(ar, ast.Call) and iff.ext(ar.func) in ('jax.numpy.arange', 'numpy.arange') and len(ar.args) == 1:
+              size = ar.args[0]
+          elif isinstance(y, ast.Call) and isinstance(y.func, ast.Attribute) and y.func.attr == 'take' and y.args:
             base = y.func.value
             ar = iff.expand1(y.args[0])
             if isinstance(ar, ast.Call) and iff.ext(ar.func) in ('jax.numpy.arange', 'numpy.arange') and len(ar.args) == 1:
@@ -293,17 +298,30 @@ def run(check: Check):
         split_ok = isinstance(v.args[1], ast.Call) and ff.ext(v.args[1].func) == 'builtins.len' and txt(v.args[1].args[0]) == LEAVES
     zip_ok = False
     call_ok = False
+    target_fn = f'{MOD}:' + q.replace('_pytree', '')
+    # the pairing loop: a for statement or a comprehension over zip(leaves, keys[, shapes])
+    pairings = []
     for n in ff.cfg.nodes:
       if n.kind == 'for' and isinstance(n.ast.iter, ast.Call) and ff.ext(n.ast.iter.func) == 'builtins.zip':
-        za = n.ast.iter.args
-        zip_ok = (len(za) == n_iter and txt(za[0]) == LEAVES and split_call is not None and any(v is split_call for v in ff.expand(za[1])))
-        tg = [t.id for t in n.ast.target.elts]
-        target_fn = f'{MOD}:' + q.replace('_pytree', '')
-        for c in ast.walk(n.ast):
-          if isinstance(c, ast.Call) and wmean.repo_fn(ff, c) == target_fn:
-            call_ok = [txt(a) for a in c.args] == tg
+        pairings.append((n.ast.iter, n.ast.target, [c for c in ast.walk(n.ast) if isinstance(c, ast.Call)]))
+    for nd in ff.cfg.nodes:
+      if nd.ast is None:
+        continue
+      for comp in nd.walk():
+        if isinstance(comp, (ast.ListComp, ast.GeneratorExp)) and len(comp.generators) == 1 and isinstance(comp.generators[0].iter, ast.Call) and ff.ext(
+            comp.generators[0].iter.func) == 'builtins.zip':
+          pairings.append((comp.generators[0].iter, comp.generators[0].target, [c for c in ast.walk(comp.elt) if isinstance(c, ast.Call)]))
+    for zc, tgt, inner_calls in pairings:
+      za = zc.args
+      this_zip = (len(za) == n_iter and txt(za[0]) == LEAVES and split_call is not None and any(v is split_call for v in ff.expand(za[1])))
+      tg = [t.id for t in tgt.elts] if isinstance(tgt, ast.Tuple) else []
+      for c in inner_calls:
+        if wmean.repo_fn(ff, c) == target_fn:
+          zip_ok = zip_ok or this_zip
+          call_ok = call_ok or [txt(a) for a in c.args] == tg
     unflat = any(isinstance(rv, (ast.Call, ast.Tuple)) for _, rv in ff.returns()) and any(
-        ff.ext(c.func) == 'jax.tree_util.tree_unflatten' and txt(c.args[0]) == TREEDEF for _, c in ff.calls())
+        (ff.ext(c.func) == 'jax.tree_util.tree_unflatten' and txt(c.args[0]) == TREEDEF) or
+        (isinstance(c.func, ast.Attribute) and c.func.attr == 'unflatten' and txt(c.func.value) == TREEDEF) for _, c in ff.calls())
     check.ob('R-SIB.rotation', fi, f'{q}: keys = split(rng, len(leaves)); zip(leaves, keys{", shapes" if n_iter == 3 else ""})',
              split_ok and leaves_ok and zip_ok and call_ok and unflat,
              f'leaf i of the flattened tree is paired with key i (split={split_ok}, leaves from the argument={leaves_ok}, zip order='
@@ -375,7 +393,7 @@ def _schedule(check: Check, wh: FuncInfo, wff: FuncFlow):
   td = [c for c in calls if wff.ext(c.func) == 'jax.numpy.tensordot']
   if ein:
     c = ein[0]
-    ok, why = False, 'subscripts not recognised'
+    ok, why = None, 'subscripts not recognised'
 
     def local_def(e):
       if not isinstance(e, ast.Name):
@@ -408,32 +426,58 @@ def _schedule(check: Check, wh: FuncInfo, wff: FuncFlow):
             if isinstance(a, ast.Name) and a.id == I:
               K = b
               b_ok = True
+        def unstr(e):
+          """The expression whose decimal text e is: str(E) -> E, a name bound to str(E) -> E."""
+          e2 = local_def(e) if isinstance(e, ast.Name) else e
+          if isinstance(e2, ast.Call) and wff.ext(e2.func) == 'builtins.str' and e2.args:
+            return e2.args[0]
+          return e
+        if K is not None:
+          K = unstr(K)
         # C: A.replace(str(i), str(K), 1)
-        c_ok = False
+        c_ok = None
         if K is not None and isinstance(C, ast.Call) and isinstance(C.func, ast.Attribute) and C.func.attr == 'replace' and \
             txt(local_def(C.func.value)) == txt(A) and len(C.args) >= 2:
-          c_ok = txt(C.args[0]) == f'str({I})' and txt(C.args[1]) == f'str({txt(K)})'
+          c_ok = txt(unstr(C.args[0])) == I and txt(unstr(C.args[1])) == txt(K)
+        elif C is not None and A is not None and txt(C) == txt(A):
+          c_ok = False   # the output keeps axis i: the new label is summed away
         # K is a label not used by y: N + c with c >= 0 (N itself is unused by range(N)), and single digit: guard K >= 10 -> raise
-        k_fresh = False
+        k_fresh = None
         if K is not None and N is not None:
           kt, nt = txt(K), txt(N)
           if kt == nt:
             k_fresh = True
-          elif isinstance(K, ast.BinOp) and isinstance(K.op, ast.Add) and txt(K.left) == nt and isinstance(K.right, ast.Constant) and isinstance(K.right.value, int) and K.right.value >= 0:
-            k_fresh = True
-        guard = False
+          elif isinstance(K, ast.BinOp) and isinstance(K.op, (ast.Add, ast.Sub)) and txt(K.left) == nt and isinstance(K.right, ast.Constant) and isinstance(K.right.value, int):
+            k_fresh = isinstance(K.op, ast.Add) and K.right.value >= 0
+        guard = None
         if K is not None:
           for n in wff.cfg.nodes:
             if n.kind == 'if' and isinstance(n.ast.test, ast.Compare) and len(n.ast.test.ops) == 1 and any(isinstance(s_, ast.Raise) for s_ in n.ast.body):
               f = lt_form(n.ast.test)   # 10 <= K  or  9 < K  (however written)
-              if f is not None and txt(f[2]) == txt(K) and isinstance(f[0], ast.Constant) and isinstance(f[0].value, int):
-                v = f[0].value
-                guard = guard or (not f[1] and v <= 10) or (f[1] and v <= 9)
+              if f is not None and isinstance(f[0], ast.Constant) and isinstance(f[0].value, int):
+                big = f[2]
+                bigv = local_def(big) if isinstance(big, ast.Name) else big
+                same_k = txt(big) == txt(K) or (bigv is not None and txt(bigv) == txt(K))
+                # len(shape) + 1 vs num_dims + 1: compare through the definition of N
+                if not same_k and N is not None and isinstance(K, ast.BinOp) and isinstance(big, ast.BinOp) and txt(K.right) == txt(big.right) and type(K.op) is type(big.op):
+                  nd_ = local_def(N) if isinstance(N, ast.Name) else N
+                  same_k = nd_ is not None and atxt(wff, nd_) == atxt(wff, big.left)
+                if same_k:
+                  v = f[0].value
+                  guard = bool(guard) or (not f[1] and v <= 10) or (f[1] and v <= 9)
+          if guard is None and a_ok and b_ok:
+            guard = False   # everything else is recognised and no test bounds the label
         args_ok = len(c.args) >= 3 and isinstance(c.args[2], ast.Subscript) and txt(c.args[2].slice) == lp.target.elts[1].id
-        ok = a_ok and b_ok and c_ok and k_fresh and guard and args_ok
+        parts_v = [a_ok or None, b_ok or None, c_ok, k_fresh, guard, args_ok or None]
+        if any(v is False for v in parts_v):
+          ok = False
+        elif all(v is True for v in parts_v):
+          ok = True
+        else:
+          ok = None
         why = (f'y carries all axes={a_ok}; the Hadamard factor carries axis i and one fresh label={b_ok}; the output replaces axis i by '
                f'that label in place={c_ok}; the label is unused by y={k_fresh} and guaranteed to be a single digit (guard raises)={guard}; '
-               f'the factor is the one for this axis size={args_ok}')
+               f'the factor is the one for this axis size={args_ok} (None = construction not recognised)')
     if spec is not None and isinstance(spec, ast.JoinedStr):
       check.ob('R-SCHEDULE', wh, 'einsum("<axes>,<i><K>-><axes with i:=K>", y, H_d)', ok, why, node=c)
   elif td:
